@@ -25,4 +25,7 @@ def ErrKind.toString : ErrKind → String
   | .request => "request" | .policy => "policy" | .eval => "eval"
   | .rbac => "rbac" | .adapter => "adapter" | .io => "io" | .model => "model"
 
+/-- one text representation everywhere text is inspected character by character -/
+abbrev Str := List Char
+
 end Casbin
